@@ -338,6 +338,9 @@ void reb_simulation_remove_all_particles(struct reb_simulation* const r){
 	r->N_allocated 	= 0;
 	r->N_active 	= -1;
 	r->N_var 	= 0;
+	r->N_var_config = 0; // The variational configurations refer to particles by index.
+	free(r->var_config);
+	r->var_config 	= NULL;
 	free(r->particles);
 	r->particles 	= NULL;
 	reb_tree_delete(r); // The tree refers to particles by index.
